@@ -196,3 +196,261 @@ Proof.
       rewrite <- !app_assoc.
       repeat split; auto; lia.
 Qed.
+
+(* ------------------------------------------------------------------ *)
+(* C12_moves_past                                                       *)
+(* ------------------------------------------------------------------ *)
+
+(* apply_list gets through every entry before the first one that needs a newer code
+   version, raising or not, counts each of them, and no exception escapes *)
+Theorem moves_past : forall (es : list entry) (s : S),
+  let sv := self_ver (nd s) in
+  let s' := apply_list es s in
+  applied (nd s') = applied (nd s) + N.of_nat (length (runnable sv es)) /\
+  hist (nd s') = hist (nd s) ++ replay (runnable sv es) /\
+  enabled_ver (nd s') = ver_after (enabled_ver (nd s)) (runnable sv es) /\
+  self_ver (nd s') = sv /\
+  exc s' = exc s /\
+  (exists tl, es = runnable sv es ++ tl /\
+              match tl with [] => True | b :: _ => needs_ver sv (ecmd b) = true end) /\
+  ((forall e, In e es -> needs_ver sv (ecmd e) = false) ->
+     applied (nd s') = applied (nd s) + N.of_nat (length es)).
+Proof.
+  intros es s. cbn zeta.
+  destruct (apply_list_spec es s) as (H1 & H2 & H3 & H4 & H5 & H6 & H7 & H8 & H9 & H10).
+  repeat split; auto.
+  - pose proof (runnable_blocker (self_ver (nd s)) es) as RB.
+    destruct (blocker (self_ver (nd s)) es) as [b|].
+    + destruct RB as [tl [E B]]. exists (b :: tl). auto.
+    + exists []. rewrite app_nil_r. auto.
+  - intros NB. rewrite H3, runnable_none; auto.
+Qed.
+
+(* the progress of the loop does not depend on which commands raise *)
+Definition same_but_raising (e e' : entry) : Prop :=
+  eidx e = eidx e' /\ eterm e = eterm e' /\ ck (ecmd e) = ck (ecmd e') /\ ca (ecmd e) = ca (ecmd e').
+
+Lemma runnable_length_raising : forall sv es es',
+  Forall2 same_but_raising es es' -> length (runnable sv es) = length (runnable sv es').
+Proof.
+  induction 1 as [|e e' es es' (H1 & H2 & H3 & H4) F IH]; cbn; auto.
+  unfold needs_ver. rewrite H3, H4. destruct ((ck (ecmd e') =? 3) && (sv <? ca (ecmd e'))); cbn; auto.
+Qed.
+
+Theorem moves_past_any_raising : forall (es es' : list entry) (s : S),
+  Forall2 same_but_raising es es' ->
+  applied (nd (apply_list es s)) = applied (nd (apply_list es' s)) /\
+  exc (apply_list es s) = exc (apply_list es' s).
+Proof.
+  intros es es' s F.
+  destruct (apply_list_spec es s) as (_ & _ & H3 & _ & _ & _ & _ & _ & H9 & _).
+  destruct (apply_list_spec es' s) as (_ & _ & H3' & _ & _ & _ & _ & _ & H9' & _).
+  rewrite H3, H3', H9, H9', (runnable_length_raising _ _ _ F). auto.
+Qed.
+
+(* ------------------------------------------------------------------ *)
+(* C12_callback_once                                                    *)
+(* ------------------------------------------------------------------ *)
+
+(* the local subscribers (term recorded at submission, callback id) of a list *)
+Definition local_subs (l : list (N * cbref)) : list (N * N) :=
+  flat_map (fun tc => match snd tc with CbLocal id => [(fst tc, id)] | _ => [] end) l.
+
+(* what one subscriber is told *)
+Definition outcome (en : entry) (r : N) (ti : N * N) : N * N * N :=
+  if fst ti =? eterm en then (snd ti, r, SUCCESS) else (snd ti, 0, DISCARDED).
+
+Lemma sub_fired_map : forall en r subs,
+  flat_map (sub_fired en r) subs = map (outcome en r) (local_subs subs).
+Proof.
+  induction subs as [|tc subs IH]; cbn; auto.
+  unfold local_subs in *. cbn [flat_map]. rewrite map_app, <- IH. f_equal.
+  unfold sub_fired, outcome. destruct (snd tc); cbn; auto. destruct (fst tc =? eterm en); auto.
+Qed.
+
+(* one Fired per local subscriber of each executed entry, against the table as it was before the loop *)
+Fixpoint fired_run (h : list N) (wc : list (N * list (N * cbref))) (es : list entry) : list (N * N * N) :=
+  match es with
+  | [] => []
+  | en :: r =>
+    map (outcome en (result_of h (ecmd en))) (local_subs (subs_of (eidx en) wc))
+    ++ fired_run (h ++ cmd_effect (ecmd en)) wc r
+  end.
+
+Lemma fired_list_ext : forall es h wc wc',
+  NoDup (map eidx es) ->
+  (forall e, In e es -> aget (eidx e) wc = aget (eidx e) wc') ->
+  fired_list h wc es = fired_run h wc' es.
+Proof.
+  induction es as [|en r IH]; intros h wc wc' ND H; cbn; auto.
+  inversion ND as [|? ? NI ND']; subst.
+  rewrite sub_fired_map. unfold subs_of at 1 2. rewrite (H en (or_introl eq_refl)). f_equal.
+  apply IH; auto. intros e I. rewrite aget_adel_other.
+  - apply H. now right.
+  - intros E. apply NI. rewrite <- E. now apply in_map.
+Qed.
+
+Lemma pop_all_sorted : forall es wc lo, asorted lo wc -> asorted lo (pop_all es wc).
+Proof.
+  induction es as [|e r IH]; intros; cbn; auto. apply IH. now apply asorted_adel.
+Qed.
+
+Lemma pop_all_other : forall es wc i, ~ In i (map eidx es) -> aget i (pop_all es wc) = aget i wc.
+Proof.
+  induction es as [|e r IH]; intros wc i NI; cbn; auto.
+  rewrite IH. - apply aget_adel_other. intros E. apply NI. left. auto.
+  - intros I. apply NI. now right.
+Qed.
+
+Lemma pop_all_absent : forall es wc i, aget i wc = None -> aget i (pop_all es wc) = None.
+Proof.
+  induction es as [|e r IH]; intros wc i H; cbn; auto. apply IH.
+  destruct (N.eq_dec i (eidx e)) as [->|NE].
+  - now rewrite adel_absent.
+  - now rewrite aget_adel_other.
+Qed.
+
+Lemma pop_all_gone : forall es wc i lo, asorted lo wc -> In i (map eidx es) -> aget i (pop_all es wc) = None.
+Proof.
+  induction es as [|e r IH]; intros wc i lo SO I; cbn in *; [tauto|].
+  destruct (N.eq_dec (eidx e) i) as [<-|NE].
+  - apply pop_all_absent. eapply aget_adel_same; eauto.
+  - destruct I as [I|I]; [congruence|]. apply (IH _ _ lo); auto. now apply asorted_adel.
+Qed.
+
+Theorem callback_once : forall (es : list entry) (s : S),
+  NoDup (map eidx es) ->
+  asorted None (wait_commit (nd s)) ->
+  let sv := self_ver (nd s) in
+  let wc := wait_commit (nd s) in
+  let s' := apply_list es s in
+  (* exactly one Fired per local subscriber of each executed entry: SUCCESS with the result iff
+     the recorded term is the entry's term, DISCARDED otherwise; nothing else is fired *)
+  fired (outs s') = fired (outs s) ++ fired_run (hist (nd s)) wc (runnable sv es) /\
+  (* their subscriptions are gone *)
+  (forall en, In en (touched sv es) -> aget (eidx en) (wait_commit (nd s')) = None) /\
+  (* every other index keeps its subscribers *)
+  (forall i, ~ In i (map eidx (touched sv es)) -> aget i (wait_commit (nd s')) = aget i wc) /\
+  asorted None (wait_commit (nd s')).
+Proof.
+  intros es s ND SO. cbn zeta.
+  destruct (apply_list_spec es s) as (_ & _ & _ & _ & H5 & _ & _ & _ & _ & H10).
+  rewrite H5, H10. repeat split.
+  - f_equal. apply fired_list_ext; auto.
+    destruct (runnable_prefix (self_ver (nd s)) es) as [tl E].
+    rewrite E, map_app in ND. now apply NoDup_app_l in ND.
+  - intros en I. eapply pop_all_gone; eauto. now apply in_map.
+  - intros i NI. now apply pop_all_other.
+  - now apply pop_all_sorted.
+Qed.
+
+(* the result handed to a SUCCESS callback of a raising command is the exception marker 1,
+   of a normal REGULAR command its position in the user state (+1: 0 encodes None) *)
+Lemma result_of_raises : forall h c, raises c = true -> result_of h c = 1.
+Proof.
+  unfold raises, result_of. intros h c H. apply andb_prop in H as [H1 H2]. now rewrite H1, H2.
+Qed.
+
+Lemma result_of_regular : forall h c, ck c = 0 -> cb c <> 1 ->
+  result_of h c = N.of_nat (length h) + 2.
+Proof.
+  unfold result_of. intros h c H1 H2. rewrite H1. cbn.
+  destruct (cb c =? 1) eqn:E. { apply N.eqb_eq in E. congruence. }
+  rewrite app_length. cbn. lia.
+Qed.
+
+(* ------------------------------------------------------------------ *)
+(* C12_replicas_equal                                                   *)
+(* ------------------------------------------------------------------ *)
+
+Theorem replicas_equal : forall (es : list entry) (s1 s2 : S),
+  hist (nd s1) = hist (nd s2) ->
+  enabled_ver (nd s1) = enabled_ver (nd s2) ->
+  self_ver (nd s1) = self_ver (nd s2) ->
+  let s1' := apply_list es s1 in
+  let s2' := apply_list es s2 in
+  hist (nd s1') = hist (nd s2') /\
+  enabled_ver (nd s1') = enabled_ver (nd s2') /\
+  self_ver (nd s1') = self_ver (nd s2') /\
+  (exists k, applied (nd s1') = applied (nd s1) + k /\ applied (nd s2') = applied (nd s2) + k) /\
+  exc s1' = exc s1 /\ exc s2' = exc s2 /\
+  (* with the same subscribers both tell them the same results *)
+  (wait_commit (nd s1) = wait_commit (nd s2) ->
+   exists f, fired (outs s1') = fired (outs s1) ++ f /\ fired (outs s2') = fired (outs s2) ++ f).
+Proof.
+  intros es s1 s2 Hh Hv Hs. cbn zeta.
+  destruct (apply_list_spec es s1) as (A1 & A2 & A3 & A4 & A5 & A6 & A7 & A8 & A9 & A10).
+  destruct (apply_list_spec es s2) as (B1 & B2 & B3 & B4 & B5 & B6 & B7 & B8 & B9 & B10).
+  rewrite A1, A2, A4, B1, B2, B4, Hh, Hv, Hs. repeat split; auto.
+  - exists (N.of_nat (length (runnable (self_ver (nd s2)) es))). rewrite A3, B3, Hs. auto.
+  - intros W. eexists. rewrite A10, B10, Hh, Hs, W. eauto.
+Qed.
+
+(* a list of raising commands leaves the user state as it was, on every replica *)
+Theorem raising_leaves_state : forall (es : list entry) (s : S),
+  (forall e, In e es -> raises (ecmd e) = true) ->
+  hist (nd (apply_list es s)) = hist (nd s) /\
+  enabled_ver (nd (apply_list es s)) = enabled_ver (nd s) /\
+  applied (nd (apply_list es s)) = applied (nd s) + N.of_nat (length es) /\
+  exc (apply_list es s) = exc s.
+Proof.
+  intros es s R.
+  destruct (apply_list_spec es s) as (A1 & A2 & A3 & A4 & A5 & A6 & A7 & A8 & A9 & A10).
+  assert (RN : runnable (self_ver (nd s)) es = es).
+  { apply runnable_none. intros e I. specialize (R e I). unfold raises in R. unfold needs_ver.
+    apply andb_prop in R as [R1 _]. apply N.eqb_eq in R1. now rewrite R1. }
+  rewrite A1, A2, A3, A9, RN. repeat split; auto.
+  - assert (E : replay es = []).
+    { clear -R. induction es as [|e r IH]; cbn; auto.
+      rewrite raises_effect by (apply R; now left). cbn. apply IH. intros; apply R; now right. }
+    now rewrite E, app_nil_r.
+  - clear -R. generalize (enabled_ver (nd s)). induction es as [|e r IH]; intros v; cbn; auto.
+    assert (K : ck (ecmd e) =? 3 = false).
+    { specialize (R e (or_introl eq_refl)). unfold raises in R. apply andb_prop in R as [R1 _].
+      apply N.eqb_eq in R1. now rewrite R1. }
+    unfold ver_after. cbn [fold_left]. rewrite K. apply IH. intros; apply R; now right.
+Qed.
+
+(* ------------------------------------------------------------------ *)
+(* C12_replay_after_restart                                             *)
+(* ------------------------------------------------------------------ *)
+
+Lemma apply_list_app_full : forall a b s,
+  runnable (self_ver (nd s)) a = a -> apply_list (a ++ b) s = apply_list b (apply_list a s).
+Proof.
+  induction a as [|en a IH]; intros b s R; auto.
+  cbn [app]. rewrite !apply_list_cons, apply_one_go. cbn [runnable] in R.
+  destruct (needs_ver (self_ver (nd s)) (ecmd en)) eqn:B; [discriminate|]. cbn [negb].
+  injection R as R. apply IH.
+  destruct (apply_one_ok en s B) as (_ & _ & _ & _ & A4 & _). now rewrite A4.
+Qed.
+
+Lemma apply_list_app_blocked : forall a b s,
+  runnable (self_ver (nd s)) a <> a -> apply_list (a ++ b) s = apply_list a s.
+Proof.
+  induction a as [|en a IH]; intros b s R; [cbn in R; congruence|].
+  cbn [app]. rewrite !apply_list_cons, apply_one_go. cbn [runnable] in R.
+  destruct (needs_ver (self_ver (nd s)) (ecmd en)) eqn:B; cbn [negb]; auto.
+  apply IH. destruct (apply_one_ok en s B) as (_ & _ & _ & _ & A4 & _). rewrite A4. congruence.
+Qed.
+
+(* applying a journal in one go or split at any point (ticks, restarts) gives the same state;
+   what the user state becomes is a function of the entries alone *)
+Theorem replay_after_restart : forall (es1 es2 : list entry) (s : S),
+  (runnable (self_ver (nd s)) es1 = es1 -> apply_list (es1 ++ es2) s = apply_list es2 (apply_list es1 s)) /\
+  (runnable (self_ver (nd s)) es1 <> es1 -> apply_list (es1 ++ es2) s = apply_list es1 s) /\
+  (forall s2 : S,
+     hist (nd s2) = hist (nd s) -> enabled_ver (nd s2) = enabled_ver (nd s) -> self_ver (nd s2) = self_ver (nd s) ->
+     applied (nd s2) = applied (nd s) ->
+     hist (nd (apply_list es1 s2)) = hist (nd (apply_list es1 s)) /\
+     enabled_ver (nd (apply_list es1 s2)) = enabled_ver (nd (apply_list es1 s)) /\
+     applied (nd (apply_list es1 s2)) = applied (nd (apply_list es1 s))).
+Proof.
+  intros es1 es2 s. split; [|split].
+  - apply apply_list_app_full.
+  - apply apply_list_app_blocked.
+  - intros s2 Hh Hv Hs Ha.
+    destruct (apply_list_spec es1 s) as (A1 & A2 & A3 & _).
+    destruct (apply_list_spec es1 s2) as (B1 & B2 & B3 & _).
+    rewrite A1, A2, A3, B1, B2, B3, Hh, Hv, Hs, Ha. auto.
+Qed.
